@@ -939,7 +939,16 @@ def stepIter (cx : Ctx) (w : World) (ws : List String) : Option StepOut :=
       | none => some (badOp w)
       | some r =>
         let writes := ws.headD "" == "itermut"
-        let (w', oI, oS, evI, evS, made) := iterDrive cx r writes steps.toList ⟨0, (getI r).firstLen⟩ ⟨0, (getS r).length⟩ 0 w [] [] {} {} []
+        -- `….rev`: the reversed iterator: its `next` is `next_back` of the plain one and vice versa (steps F / B / L / H only)
+        let rev := src.endsWith ".rev"
+        let flip (c : Char) : Char := if c == 'F' then 'B' else if c == 'B' then 'F' else c
+        let flipS (t : String) : String := match t.toList with
+          | c :: rest => String.ofList (flip c :: rest)
+          | [] => t
+        let stepsL := if rev then steps.toList.map flip else steps.toList
+        let (w', oI, oS, evI, evS, made) := iterDrive cx r writes stepsL ⟨0, (getI r).firstLen⟩ ⟨0, (getS r).length⟩ 0 w [] [] {} {} []
+        let oI := if rev then oI.map flipS else oI
+        let oS := if rev then oS.map flipS else oS
         -- `….reuse`: the view the iterator was obtained from (by reference) still covers all its elements afterwards
         let reuse := src.endsWith ".reuse"
         let oI := if reuse then oI ++ [s!"P{(getI r).firstLen}", s!"Q{(getI r).firstLen}"] else oI
